@@ -40,7 +40,7 @@ def main(argv):
     try:
         fam = importlib.import_module(FAMILY[pid])
         cov = fam.run(ctx, replay=replay)
-        if not replay:
+        if not replay and os.environ.get("VERIF_NOEVIDENCE") != "1":
             vlib.evidence(ctx, LEVEL, cov, getattr(fam, "ASSUMPTIONS", {}).get(pid, []))
         if ctx.violations:
             vlib.log("== %s: %d violation(s)" % (pid, len(ctx.violations)))
